@@ -54,6 +54,18 @@ def take():
                 n += 1
             d[k] = {"hash": it["hash"], "kind": it["kind"], "short": it.get("short") or it["name"].split("::")[-1]}
         inv[f] = d
+    # the crates' manifests: dependencies and their features decide what the same source means (seeded change C15l switched on
+    # serde_json's arbitrary_precision); comments and blank lines excluded
+    import hashlib
+    for (prefix, _) in GROUPS.values():
+        rel = os.path.join(os.path.dirname(prefix.rstrip("/")), "Cargo.toml")
+        try:
+            txt = open(os.path.join(REPO, rel)).read()
+        except OSError:
+            inv[rel] = None
+            continue
+        norm = "\n".join(l.split("#")[0].rstrip() for l in txt.splitlines() if l.split("#")[0].strip())
+        inv[rel] = {"manifest": {"hash": hashlib.sha1(norm.encode()).hexdigest()[:16], "kind": "manifest", "short": "Cargo.toml"}}
     return inv
 
 
@@ -92,7 +104,7 @@ def frame(pid, units_run):
     notes, extra = [], {}
     uncovered = []
     for f in sorted(set(base) | set(cur)):
-        if not any(f.startswith(p) for p in mine):
+        if not any(f.startswith(p) or f == os.path.join(os.path.dirname(p.rstrip("/")), "Cargo.toml") for p in mine):
             continue
         b, c = base.get(f), cur.get(f)
         if b is None or c is None:
